@@ -355,6 +355,11 @@ def core_preconditions():
         ["or", ["=", "?x", "?y"]],
         ["and", ["not", ["=", "?x", "?y"]]],
         ["or", ["=", "?x", "?y"], ["=", "?y", "?x"]],
+        # numeric conditions inside a junction whose meaning a simplifier would change if it treated them like top-level
+        # conjuncts: an equality is an assumption only under `and`; 1/3 has no finite decimal expansion
+        ["or", ["=", ["+", ["f", "?x"], ["g"]], "0"], [">", ["g"], "5"]],
+        ["or", ["p", "?x"], [">=", ["/", ["f", "?x"], "3"], "1"]],
+        ["or", ["<=", ["*", ["f", "?x"], "0.25"], ["g"]], ["=", ["f", "?y"], ["*", "2", ["g"]]]],
     ]
     for nd in nested:
         out.append(("P2", ["and", nd]))
